@@ -376,8 +376,10 @@ def run(ctx):
         r = ctx.rng("roundtrip", i)
         nm = r.choice([0, 1, 1, 2, 3, 4])
         case = {"modules": [gen_program(r, kind="module", budget=12) for _ in range(nm)],
-                "extensions": [gen_extension(r, name=f"pkg.ext{j}.ünï" if j == 1 else f"pkg.ext{j}", small=True)
-                               for j in range(r.choice([0, 0, 1, 2, 3]))],
+                # (every fourth package lists two DIFFERENT extensions under one name: two releases of one extension)
+                "extensions": [gen_extension(r, name=("pkg.ext0" if i % 4 == 1 else f"pkg.ext{j}.ünï") if j == 1
+                                             else f"pkg.ext{j}", small=True)
+                               for j in range(r.choice([0, 0, 1, 2, 3]) if i % 4 != 1 else r.choice([2, 3]))],
                 "zstd": [None] + r.sample(ZSTD[1:], 2)}
         nt = ctx.guard("roundtrip", case, check_roundtrip, ctx, case)
         ctx.case("roundtrip", case, bool(nt))
